@@ -42,6 +42,21 @@ def one(sid):
     try:
         repo = os.path.join(t, "repo")
         sh("rsync -a --exclude .git /repo/ %s/" % repo)
+        only = [x for x in os.environ.get("ONLY_PROPS", "").split(",") if x]
+        if only:
+            # a re-run of some checks only (their rules changed): confirmation and the other columns stay as they are
+            meta = json.load(open(os.path.join(d, "meta.json")))
+            if sh("patch -p1 -s < %s/patch.diff" % d, cwd=repo).returncode != 0 or sh("go build ./...", cwd=repo).returncode != 0:
+                return sid, meta
+            det, samples = dict(meta.get("detected_by") or {}), dict(meta.get("first_report") or {})
+            for p in only:
+                p_, rc, rules, first = check(p, repo, os.path.join(t, "out"))
+                det.pop(p, None); samples.pop(p, None)
+                if rc != 0:
+                    det[p] = rules; samples[p] = first
+            meta["detected_by"], meta["first_report"], meta["detected"] = det, samples, bool(det.get(prop))
+            json.dump(meta, open(os.path.join(d, "meta.json"), "w"), indent=1, sort_keys=True)
+            return sid, meta
         demo = open(os.path.join(d, "demo_test.go")).read()
         name = re.search(r"func (Test\w+)", demo).group(1)
         shutil.copy(os.path.join(d, "demo_test.go"), os.path.join(repo, "zz_seed_demo_test.go"))
